@@ -59,16 +59,13 @@ func VH_C09_K13_EngineRunsAndStops() {
 		return
 	}
 	verifrt.Reach("K13-engine-up")
-	vhSettle()
 	h := verifrt.U64("height")
 	verifrt.Assume(h < 1<<16)
 	r := verifrt.U32("round")
 	verifrt.Assume(r < 1<<8)
-	// a vote that moves the mirror out of (1,0) before the state machine's first round entrance
-	// was served used to crash the kernel natively in some schedules (repaired; decided
-	// deterministically by VH_C09_K15). To keep the native runs of this harness independent of
-	// that schedule the message is for any position except a later round of the initial height.
-	verifrt.Assume(verifrt.Or(h != 1, r == 0))
+	// (a vote that moves the mirror out of (1,0) before the state machine's first round entrance
+	// was served used to crash the kernel in some native schedules: found here, repaired,
+	// decided deterministically by VH_C09_K15)
 	keys := vkit.OkKeys(2)
 	var res tmconsensus.HandleVoteProofsResult
 	ok := verifrt.NoPanic("K13:handler-panics", func() {
